@@ -52,6 +52,19 @@ def w_tdmd(ctx, rng, idx):
     ctx.describe({'op': 'tdmd_exact/standard', 'dims': dims, 'snapshots': m, 'data': label, 'threshold': thr, 'ranks': x.ranks})
     call('tdmd.tdmd_exact', td.tdmd_exact, x, y, prop=P, refusals=(np.linalg.LinAlgError,), threshold=thr)
     call('tdmd.tdmd_standard', td.tdmd_standard, x, y, prop=P, refusals=(np.linalg.LinAlgError,), threshold=thr)
+    if idx % 3 == 0 and x.order >= 2:
+        # orthonormalisation flags off on input that already is in the required gauge (harness-side RQ of the last core)
+        with probe.oracle():
+            cores = [c.copy() for c in x.cores]
+            r, mm = cores[-1].shape[0], cores[-1].shape[1]
+            q, rr = np.linalg.qr(cores[-1].reshape(r, mm).T)  # last = rr^T q^T
+            k = q.shape[1]
+            cores[-1] = q.T.reshape(k, mm, 1, 1)
+            cores[-2] = np.tensordot(cores[-2], rr.T, axes=([3], [0]))
+            xg = tt.TT(cores)
+        fl, fr = [(False, False), (False, True), (True, False)][int(rng.integers(0, 3))]
+        call('tdmd.tdmd_exact', td.tdmd_exact, xg, y, prop=P, refusals=(np.linalg.LinAlgError,), threshold=thr, ortho_l=fl, ortho_r=fr)
+        call('tdmd.tdmd_standard', td.tdmd_standard, xg, y, prop=P, refusals=(np.linalg.LinAlgError,), threshold=thr, ortho_l=fl, ortho_r=fr)
     if idx < 3:
         ctx.sample({'workload': 'tdmd', 'spatial_dims': dims, 'snapshots': m, 'data': label, 'threshold': thr, 'tt_ranks_of_x': x.ranks})
 
